@@ -70,6 +70,20 @@ P["C13"] = dict(
     design_ref="3 UNIT, 4 C13",
 )
 
+P["C19"] = dict(
+    text="Static resource-limit analysis: (LIM1) every strongly connected component of the resolved call graph (higher-order helpers inlined) must be broken by a depth-guard function (parse depth / evaluation depth) that checks before recursing, must not re-create that guard's counter inside the cycle, and any residual cycle must be an audited structural recursion over an owned tree; (LIM1b) loops that wrap an expression into a new node per iteration must count against the nesting limit; (LIM2) an interprocedural magnitude-class taint (WORD / U32 / DATA) from every user-to-machine integer conversion through locals, struct fields, arguments and results flags each unchecked +, *, << on a user-sized value and each subtraction without a dominating or structural `>=` argument; (LIM3) user-sized loop bounds; (LIM4) every big-integer primitive tests BIGINT_MAX_BITS / zero before the num-bigint operation. Every flagged site is either repaired (8 fix: commits), discharged with a written bound argument (tables/arith.json, one site per line), or listed as a known finding with its failing input.",
+    note="Decides where limits are enforced structurally; wall-time and memory bounds as numbers are dynamic and not claimed. Contracts (tables/lim.json) assume positions inside the output are in-memory sized; the missing cap on the output size is itself a listed finding. Known findings: unguarded recursion through nested #if/asm/sub-rules/operator chains (F13), the output-position, type-width and --group families (F12).",
+    technique="static analysis: call-graph SCC analysis with guard/reset nodes; interprocedural taint with magnitude classes over MIR arithmetic; dominance-based guard recognition",
+    design_ref="3 LIM, 4 C19",
+)
+
+P["C05"] = dict(
+    text="Static table agreement for the expression language: the tokenizer's symbol table (longest match first), the (token, operator) tables of each precedence level with their combinator (left/right associativity) and the order of levels, the evaluator's operator -> primitive dispatch for integers and booleans, the num-bigint operation behind each BigInt primitive (truncating division, truncated remainder, arithmetic shifts), literal radix prefixes and bits per digit, string escapes, encoding names versus the arms of ExprString::to_bigint (its panic arm must be unreachable), and the three builtin-function registries are all extracted from MIR (promoted constant tables, enum switches, string-comparison chains) and compared with the audited operator table of the language (tables/operators.json); LIM4 checks that the checked primitives test their limits first. ERR1 (C03) covers that ill-typed operations are errors.",
+    note="Decides which operation each operator/level/literal form denotes and that the dispatch is complete; the arithmetic inside num-bigint and the bit loops of slice/concat are value-level and not claimed. The reference table was transcribed from the pinned tree and read against the documented operator list.",
+    technique="static analysis: constant-table extraction from MIR (promoted arrays, enum-switch arms, str-eq chains) + table differ against an audited language table",
+    design_ref="3 TAB-op, 4 C05",
+)
+
 NA_PENDING = "check not built yet (build in progress, see DESIGN.md section 9)"
 
 
